@@ -46,9 +46,9 @@ ATTRS = [
     (f"{{{XMLNS}}}lang", "en"),
     ("q", QName("plain")),
 ]
-DATA = [None, "", "t", QName(f"{{{A}}}q"), [1, 2], "a&<>\"'b]]>", "x\ry", " \n ", QName(f"{{{B}}}q")]
+DATA = [None, "", "t", QName(f"{{{A}}}q"), [1, 2], "a&<>\"'b]]>", "x\ry", " \n ", QName(f"{{{B}}}q"), "\rx\r\ry\r"]
 HOSTILE_DATA = ["\x01", "a\x0bb", "￾"]  # not XML 1.0 Char: an error is an accepted outcome
-TAILS = [None, "tail", " "]
+TAILS = [None, "tail", " ", "t\r"]
 
 USER_MAPS = [
     {},
@@ -61,7 +61,8 @@ USER_MAPS = [
     {"xml": A},                         # reserved prefix
     {"a b": A},                         # syntactically invalid prefix
     {"p": ""},                          # entry with empty URI
-    {"xsi": "urn:not-xsi"},             # prefix the library generates for a well-known namespace
+    {"xsi": A},                         # the prefix the library generates for a well-known namespace, bound by the user to a namespace in use
+    {"xs": B, "xsi": "urn:not-xsi"},
     {None: B, "ns2": A},
 ]
 
